@@ -141,7 +141,7 @@ def run(prop, args):
             tr = os.path.join(wd, "c%d_%d.ndjson" % (ci, b))
             env = dict(os.environ)
             env["PIXMAN_DISABLE"] = dis
-            vf.sh([exe, sp, tr], env=env, timeout=900, check=False)
+            vf.run_driver([exe, sp, tr], tr, env={"PIXMAN_DISABLE": dis}, timeout=900)
             traces.append(tr)
             for line in open(tr):
                 if line.startswith('{"e":"Done"'):
